@@ -465,10 +465,21 @@ class DropOldProposals:
         "for proposal in to_delete": dict(
             idx="_k",
             havoc_objects={"bucket": ProposalSetT},
+            ghost_init=["g_removed = False"],
+            ghost_stmts=["g_removed = g_removed or key_is(proposal, gp, gs)"],
+            havoc={"g_removed": Bool},
             invariant=dict(
+                # ground facts about the arbitrary key (gp, gs); the quantified ones only tie the ghost flags to the list
                 ghost_key_present_iff_not_removed_yet="keyset_has(bucket, KEY, (gp, gs)) == ("
-                                                      "old(keyset_has(bucket(self, CID), KEY, (gp, gs)))"
-                                                      " and not exists(0, _k, lambda j: key_is(to_delete[j], gp, gs)))",
+                                                      "old(keyset_has(bucket(self, CID), KEY, (gp, gs))) and not g_removed)",
+                removed_flag_is_prefix_of_list="g_removed == exists(0, _k, lambda j: key_is(to_delete[j], gp, gs))",
+                # bridge (established once, when the second loop starts): the ghost key was listed exactly if it was in
+                # the bucket with an expired proposal
+                listed_iff_old_and_expired="g_listed == (old(keyset_has(bucket(self, CID), KEY, (gp, gs)))"
+                                           " and old(keyset_has(bucket(self, CID), KEY, (gp, gs))"
+                                           " and expired(keyset_get(bucket(self, CID), KEY, (gp, gs)), loop_time,"
+                                           " self._max_proposal_age_sec)))",
+                listed_flag_is_whole_list="g_listed == exists(0, len(to_delete), lambda j: key_is(to_delete[j], gp, gs))",
                 listed_keys_distinct="forall(0, len(to_delete), lambda a: forall(0, len(to_delete), lambda b: implies(a < b,"
                                      " not (to_delete[a].priority == to_delete[b].priority"
                                      " and to_delete[a].source_id == to_delete[b].source_id))))",
